@@ -625,7 +625,7 @@ pub fn check(id: u32, cfg: &RunCfg, findings: &Findings) -> Report {
   }
 
   // 2. state sweeps of generated small layouts (proptest generates and shrinks the layout)
-  let sweep_cases: u32 = if quick { 96 } else { 1_500 };
+  let sweep_cases: u32 = if quick { 288 } else { 1_500 };
   let sc = SweepCfg { max_held: if quick { 4 } else { 4 }, cap_states: if quick { 60_000 } else { 300_000 }, with_release_all: matches!(id, 1 | 2 | 19) };
   let sweep_alpha = if quick { 6 } else { 7 };
   {
